@@ -291,7 +291,8 @@ def genProgs (svc : Bool) : Progs :=
     watch := conv (if svc then Generated.c11ServiceWatch else Generated.c11PatternWatch)
     lookupP := conv Generated.c11PatternLookup
     lookupS := conv Generated.c11ServiceLookup
-    storeSame := Generated.c11ServiceStoreSame }
+    storeSame := Generated.c11ServiceStoreSame
+    svc := svc }
 
 def replay (P : Progs) (svc : Bool) (issued : List Issued) : List Round → Nat → List Cand → Option String
   | [], _, _ => none
